@@ -460,6 +460,10 @@ func OneShot(name string, bank *Bank, asserts []*Term, timeout time.Duration, wa
 	if err != nil {
 		return Unknown, nil
 	}
+	if d := os.Getenv("VERIF_DUMP_ALL"); d != "" {
+		os.MkdirAll(d, 0o755)
+		os.WriteFile(fmt.Sprintf("%s/os%d_%d.smt2", d, os.Getpid(), time.Now().UnixNano()), []byte(sb.String()), 0o644)
+	}
 	defer os.Remove(f.Name())
 	f.WriteString(sb.String())
 	f.Close()
